@@ -6,6 +6,7 @@ import GBS.Model.FF
 import GBS.Model.Parse
 import GBS.Model.ReactGraph
 import GBS.Model.WellPosed
+import GBS.Model.AtomGraph
 /-! JSON codecs for the line protocol (driver only; not part of the verified model). -/
 open Lean
 namespace GBS.Driver
@@ -169,5 +170,26 @@ def pmolToJson (m : PMol) : Json :=
       | none => Json.null
       | some x => Json.mkObj [("abs", optRatToJson x.abs), ("rel", optRatToJson x.rel)]),
     ("ext", Json.str (String.ofList (printMol m true))), ("noext", Json.str (String.ofList (printMol m false)))]
+
+def atokenOf (j : Json) : R AToken := do
+  let atoms ← listOf (fun a => do
+    let arr ← arrOf a
+    match arr.toList with
+    | [z, c, ar] => pure ({ z := ← natOf z, charge := ← intOf c, arom := ← boolOf ar } : AAtom)
+    | _ => throw "bad atom") (← getF j "atoms")
+  let inner ← listOf (fun a => do
+    let arr ← arrOf a
+    match arr.toList with
+    | [i, k, b] => pure ((← natOf i), (← natOf k), (← natOf b))
+    | _ => throw "bad bond") (← getF j "inner")
+  pure { atoms := atoms, inner := inner, bds := ← listOf descOf (← getF j "bds"), mass := ← ratOf (← getF j "m") }
+
+def aelemOf (j : Json) : R AElem := do
+  match (← strOf (← getF j "k")) with
+  | "tok" => pure (.tok (← atokenOf (← getF j "t")))
+  | "stoch" =>
+    pure (.stoch (← descOf (← getF j "left")) (← descOf (← getF j "right")) (← listOf atokenOf (← getF j "rep"))
+      (← listOf atokenOf (← getF j "end")) (← optOf ratOf (← getF j "mn")) (← optOf ratOf (← getF j "mw")))
+  | k => throw s!"bad element kind {k}"
 
 end GBS.Driver
